@@ -183,6 +183,16 @@ func c13Bam(r *core.Result, c core.Case) {
 	}
 	for _, p := range pairs {
 		ch := bgzf.Chunk{Begin: chunks[p.i].Begin, End: chunks[p.j].End}
+		if rng.Intn(4) == 0 {
+			// a chunk that is set and abandoned without a single Read
+			q := pairs[rng.Intn(len(pairs))]
+			oc := bgzf.Chunk{Begin: chunks[q.i].Begin, End: chunks[q.j].End}
+			if err := br.SetChunk(&oc); err != nil {
+				r.Violate("chunk|setchunk", "%s: SetChunk(%v): %v", cfg, oc, err)
+				return
+			}
+			r.Count("setchunk_abandoned_unread", 1)
+		}
 		if err := br.SetChunk(&ch); err != nil {
 			r.Violate("chunk|setchunk", "%s: SetChunk(%v): %v", cfg, ch, err)
 			return
